@@ -11,100 +11,321 @@ import (
 
 type area struct{}
 
-var alphabet = []string{"0", "0", "1", "9", "2", "a", "A", "b", "B", "z", "Z", "_", "\xc3\xa9", " ", ":", "/", "{", "@", "[", "`"}
+// Byte classes the comparison distinguishes. The boundary bytes sit directly around '0'..'9', 'A'..'Z' and 'a'..'z',
+// so an off-by-one in any of the range tests changes the result of some generated pair.
+var (
+	boundary = []byte{'/', ':', '@', '[', '`', '{', 'a', 'z', 'A', 'Z', '_', '^', ' ', '~', 0x7f, 0x80, 0xff, 0x00}
+	nonASCII = []string{"\xc3\xa9", "\xc3\x89", "\xe2\x82\xac", "\xf0\x9f\x98\x80", "\xce\xb1"}
+)
 
+// letter returns one non-digit byte sequence.
+func letter(r *hx.Rng) string {
+	switch r.Intn(12) {
+	case 0, 1, 2:
+		return string([]byte{hx.Pick(r, boundary)})
+	case 3:
+		return hx.Pick(r, nonASCII)
+	case 4: // any non-digit byte
+		for {
+			c := byte(r.U64())
+			if c < '0' || c > '9' {
+				return string([]byte{c})
+			}
+		}
+	case 5, 6, 7:
+		return string([]byte{byte('A' + r.Intn(26))})
+	default:
+		return string([]byte{byte('a' + r.Intn(26))})
+	}
+}
+
+// digitRun returns zeros followed by significant digits; one run in eight is longer than a machine word.
+func digitRun(r *hx.Rng) string {
+	var sb strings.Builder
+	if r.Chance(1, 3) {
+		for i, n := 0, r.Range(1, 3); i < n; i++ {
+			sb.WriteByte('0')
+		}
+	}
+	n := r.Range(1, 5)
+	switch r.Intn(8) {
+	case 0:
+		n = r.Range(17, 24)
+	case 1:
+		n = 0 // zeros only (or nothing at all)
+	}
+	for i := 0; i < n; i++ {
+		if i == 0 {
+			sb.WriteByte(byte('1' + r.Intn(9)))
+		} else {
+			sb.WriteByte(byte('0' + r.Intn(10)))
+		}
+	}
+	return sb.String()
+}
+
+// genStr builds a multi-chunk string (digit runs and other bytes alternating at random), usually at most 24 bytes.
 func genStr(r *hx.Rng) string {
-	switch r.Intn(10) {
+	switch r.Intn(40) {
 	case 0:
 		return ""
-	case 1: // random bytes
-		n := r.Intn(6)
-		b := make([]byte, n)
+	case 1: // unstructured bytes
+		b := make([]byte, r.Intn(9))
 		for i := range b {
 			b[i] = byte(r.U64())
 		}
 		return string(b)
-	case 2: // long digit run
+	case 2: // one very long number
 		var sb strings.Builder
-		if r.Bool() {
-			sb.WriteString(hx.Pick(r, []string{"a", "A", "x", ""}))
-		}
 		for i, n := 0, r.Intn(4); i < n; i++ {
 			sb.WriteByte('0')
 		}
-		for i, n := 0, r.Intn(40); i < n; i++ {
+		for i, n := 0, r.Range(18, 40); i < n; i++ {
 			sb.WriteByte(byte('0' + r.Intn(10)))
 		}
-		if r.Bool() {
-			sb.WriteString(hx.Pick(r, []string{"a", "A", "b", ""}))
-		}
-		return sb.String()
-	default:
-		var sb strings.Builder
-		for i, n := 0, r.Intn(7); i < n; i++ {
-			sb.WriteString(hx.Pick(r, alphabet))
-		}
 		return sb.String()
 	}
-}
-
-// mutate returns a near copy so that long common prefixes and ties are frequent.
-func mutate(r *hx.Rng, s string) string {
-	b := []byte(s)
-	switch r.Intn(8) {
-	case 0:
-		return s
-	case 1: // flip case of letters
-		for i, c := range b {
-			if c >= 'a' && c <= 'z' && r.Bool() {
-				b[i] = c - 32
-			} else if c >= 'A' && c <= 'Z' && r.Bool() {
-				b[i] = c + 32
+	var sb strings.Builder
+	limit := r.Range(6, 24)
+	if r.Chance(1, 4) {
+		limit = r.Range(1, 6)
+	}
+	digits := r.Chance(2, 5)
+	for k, chunks := 0, r.Range(1, 7); k < chunks && sb.Len() < limit; k++ {
+		if digits {
+			sb.WriteString(digitRun(r))
+		} else {
+			for i, n := 0, r.Range(1, 4); i < n; i++ {
+				sb.WriteString(letter(r))
 			}
 		}
-		return string(b)
-	case 2: // insert a zero before a digit or anywhere
-		i := r.Intn(len(b) + 1)
-		return string(b[:i]) + "0" + string(b[i:])
-	case 3: // drop a byte
-		if len(b) == 0 {
-			return s
+		if r.Chance(4, 5) { // mostly alternate, sometimes two runs of the same kind in a row (they merge)
+			digits = !digits
 		}
-		i := r.Intn(len(b))
-		return string(b[:i]) + string(b[i+1:])
-	case 4: // append
-		return s + hx.Pick(r, alphabet)
-	case 5: // replace a byte
-		if len(b) == 0 {
-			return s
-		}
-		b[r.Intn(len(b))] = hx.Pick(r, alphabet)[0]
-		return string(b)
-	case 6: // prefix
-		return s[:r.Intn(len(s)+1)]
-	default:
-		return genStr(r)
 	}
+	s := sb.String()
+	if len(s) > 26 {
+		s = s[:26]
+	}
+	return s
+}
+
+func isDig(c byte) bool { return c >= '0' && c <= '9' }
+func isLetter(c byte) bool {
+	return c >= 'a' && c <= 'z' || c >= 'A' && c <= 'Z'
+}
+
+// runs returns the start offsets of the maximal digit runs of s.
+func runs(s string) []int {
+	var out []int
+	for i := 0; i < len(s); i++ {
+		if isDig(s[i]) && (i == 0 || !isDig(s[i-1])) {
+			out = append(out, i)
+		}
+	}
+	return out
+}
+
+// flipCase flips the case of a random non-empty subset of the ASCII letters of s (s unchanged if it has none).
+func flipCase(r *hx.Rng, s string) string {
+	b := []byte(s)
+	var idx []int
+	for i, c := range b {
+		if isLetter(c) {
+			idx = append(idx, i)
+		}
+	}
+	if len(idx) == 0 {
+		return s
+	}
+	forced := idx[r.Intn(len(idx))]
+	for _, i := range idx {
+		if i == forced || r.Chance(1, 3) {
+			b[i] ^= 0x20
+		}
+	}
+	return string(b)
+}
+
+// zerosOfRun changes only the number of leading zeros of the k-th digit run.
+func zerosOfRun(r *hx.Rng, s string) string {
+	rs := runs(s)
+	if len(rs) == 0 {
+		return s
+	}
+	at := rs[r.Intn(len(rs))]
+	if s[at] == '0' && at+1 < len(s) && isDig(s[at+1]) && r.Bool() {
+		return s[:at] + s[at+1:] // one zero fewer
+	}
+	return s[:at] + strings.Repeat("0", r.Range(1, 3)) + s[at:]
+}
+
+// numberOfRun changes the value of one digit run: another digit of the same length, one digit more or fewer, ±1
+// across a power of ten.
+func numberOfRun(r *hx.Rng, s string) string {
+	rs := runs(s)
+	if len(rs) == 0 {
+		return s
+	}
+	at := rs[r.Intn(len(rs))]
+	end := at
+	for end < len(s) && isDig(s[end]) {
+		end++
+	}
+	run := []byte(s[at:end])
+	switch r.Intn(5) {
+	case 0: // other digit somewhere
+		i := r.Intn(len(run))
+		run[i] = byte('0' + (int(run[i]-'0')+r.Range(1, 9))%10)
+	case 1: // one digit more at the end
+		run = append(run, byte('0'+r.Intn(10)))
+	case 2: // one digit more in front
+		run = append([]byte{byte('1' + r.Intn(9))}, run...)
+	case 3: // one digit fewer
+		if len(run) > 1 {
+			run = run[:len(run)-1]
+		} else {
+			run[0] = byte('0' + (int(run[0]-'0')+1)%10)
+		}
+	default: // 9…9 -> 10…0
+		for i := range run {
+			run[i] = '9'
+		}
+		if r.Bool() {
+			return s[:at] + "1" + strings.Repeat("0", len(run)) + s[end:]
+		}
+	}
+	return s[:at] + string(run) + s[end:]
+}
+
+func anyByte(r *hx.Rng) string {
+	if r.Chance(1, 3) {
+		return string([]byte{byte('0' + r.Intn(10))})
+	}
+	return letter(r)
+}
+
+// related returns a string derived from a; kind says how. It differs from a unless kind == 0.
+func related(r *hx.Rng, a string, kind int) string {
+	b := a
+	switch kind {
+	case 0: // identical
+		return a
+	case 1: // only the case of letters
+		b = flipCase(r, a)
+	case 2: // only the leading zeros of one run
+		b = zerosOfRun(r, a)
+	case 3: // only the last byte
+		if len(a) > 0 {
+			last := a[len(a)-1]
+			var c byte
+			switch r.Intn(4) {
+			case 0:
+				c = last + 1
+			case 1:
+				c = last - 1
+			case 2:
+				c = last ^ 0x20
+			default:
+				c = anyByte(r)[0]
+			}
+			b = a[:len(a)-1] + string([]byte{c})
+		}
+	case 4: // proper prefix
+		if len(a) > 0 {
+			b = a[:r.Intn(len(a))]
+		}
+	case 5: // proper extension
+		b = a + anyByte(r)
+		if r.Chance(1, 3) {
+			b += genStr(r)
+		}
+	case 6: // value of one number
+		b = numberOfRun(r, a)
+	case 7: // one byte replaced anywhere (digit <-> non-digit included)
+		if len(a) > 0 {
+			i := r.Intn(len(a))
+			b = a[:i] + anyByte(r) + a[i+1:]
+		}
+	case 8: // one byte inserted or dropped
+		if len(a) > 0 && r.Bool() {
+			i := r.Intn(len(a))
+			b = a[:i] + a[i+1:]
+		} else {
+			i := r.Intn(len(a) + 1)
+			b = a[:i] + anyByte(r) + a[i:]
+		}
+	case 9: // case change plus one more edit: the folded comparison decides, not the tie-break
+		b = related(r, flipCase(r, a), r.Range(2, 8))
+	case 10: // common prefix, unrelated tails
+		b = a[:r.Intn(len(a)+1)] + genStr(r)
+	default: // unrelated
+		b = genStr(r)
+	}
+	if b == a { // the edit was not applicable (no letter / no digit run / empty): make it an extension
+		b = a + anyByte(r)
+	}
+	return b
+}
+
+// kinds and their weights (per 100): identical pairs stay rare.
+var kindWeights = []int{2, 12, 12, 8, 6, 6, 12, 10, 8, 12, 6, 6}
+
+func pickKind(r *hx.Rng) int {
+	x := r.Intn(100)
+	for k, w := range kindWeights {
+		if x < w {
+			return k
+		}
+		x -= w
+	}
+	return len(kindWeights) - 1
+}
+
+func genPair(r *hx.Rng) (string, string) {
+	a := genStr(r)
+	kind := pickKind(r)
+	// make the targeted edit applicable
+	switch kind {
+	case 1, 9:
+		if flipCase(r, a) == a {
+			i := r.Intn(len(a) + 1)
+			a = a[:i] + string([]byte{byte('a' + r.Intn(26))}) + a[i:]
+		}
+	case 2, 6:
+		if len(runs(a)) == 0 {
+			i := r.Intn(len(a) + 1)
+			a = a[:i] + digitRun(r) + "7" + a[i:]
+		}
+	}
+	b := related(r, a, kind)
+	if r.Bool() {
+		a, b = b, a
+	}
+	return a, b
 }
 
 func (area) Gen(r *hx.Rng, n int, _ string, emit func(string)) {
+	// hx.NewRng(seed) and hx.NewRng(seed+1) are the same SplitMix64 stream shifted by one draw, and the shards of one
+	// run use consecutive seeds; forking first (the state becomes a mixed output) makes the shards independent.
+	r = r.Fork()
 	for i := 0; i < n; i++ {
-		a := genStr(r)
-		b := mutate(r, a)
-		if r.Bool() {
-			a, b = b, a
-		}
+		a, b := genPair(r)
 		ci := strconv.Itoa(r.Intn(2))
-		switch r.Intn(10) {
-		case 0:
+		switch r.Intn(20) {
+		case 0, 1:
 			emit("less " + ci + " " + hx.Hex([]byte(a)) + " " + hx.Hex([]byte(b)))
-		case 1:
+		case 2:
 			k := r.Range(0, 9)
 			parts := make([]string, 0, k)
 			cur := a
 			for j := 0; j < k; j++ {
 				parts = append(parts, hx.Hex([]byte(cur)))
-				cur = mutate(r, cur)
+				if r.Chance(1, 4) {
+					cur = genStr(r)
+				} else {
+					cur = related(r, cur, pickKind(r))
+				}
 			}
 			op := "sorta"
 			if r.Bool() {
